@@ -8,7 +8,11 @@ Inductive case :=
 (* topics with a flag: the message's expiry has elapsed when the writer dequeues it (it is dropped
    BEFORE any alias is allocated for it) *)
 | COut (v5 : bool) (max : N) (topics : list (topic * bool)) (obs : list (option topic * option N)) (ran : bool)
-| CIn (maxrx : N) (pkts : list (option topic * option N * bool)) (routed : list topic) (terminated : bool) (reason : N) (ran : bool).
+| CIn (maxrx : N) (pkts : list (option topic * option N * bool)) (routed : list topic) (terminated : bool) (reason : N) (ran : bool)
+(* a long stream: [distinct] > max topics once each, then the first [repeat] again; summary of what the
+   subscriber saw: messages received, smallest / largest alias value used, messages that did not resolve (under
+   the receiver's own table) to the topic they were published on, undecodable messages *)
+| CBound (max distinct repeat recv alias_min alias_max mismatch undecodable : N) (ran : bool).
 
 Definition opt_eqb (a b : option N) : bool :=
   match a, b with Some x, Some y => x =? y | None, None => true | _, _ => false end.
@@ -39,6 +43,10 @@ Definition case_ok (c : case) : bool :=
       let os := rx_run maxrx [] (map (fun x => (mkW (fst (fst x)) (snd (fst x)), snd x)) pkts) in
       ran && list_eqb N.eqb (routes os) routed && Bool.eqb (terminated_m os) term
       && (if term then (reason =? 148) || (reason =? 129) || (reason =? 130) else true)
+  | CBound max distinct repeat recv amin amax mismatch undec ran =>
+      (* what the model sends for this stream, summarised the same way *)
+      ran && (recv =? distinct + repeat) && (mismatch =? 0) && (undec =? 0)
+      && (amin =? 1) && (amax =? N.min max distinct)
   end.
 
 Fixpoint mismatches_from (i : nat) (cs : list case) : list nat :=
